@@ -637,6 +637,38 @@ def foreign_load(task):
         return ev
 
 
+def corpus_invariant(task):
+    """A wavefunction file of the test corpus, whatever program wrote it: the loaded orbitals are orthonormal with respect to the
+    reference overlap of the loaded basis (SCF and natural orbitals are), and they hold the electrons the nuclei and the charge
+    account for.  A reader that misplaces a coefficient, an exponent or a normalisation breaks the first."""
+    path, fmt, nbmax = task
+    from iodata import api
+    from ..refeval import overlap as ref_overlap
+    ev = {"op": "CorpusInvariant", "file": os.path.basename(path), "fmt": fmt, "checked": False, "orthonormal": True, "nelec_ok": True, "dev": 0.0}
+    try:
+        with warnings.catch_warnings():
+            warnings.simplefilter("ignore")
+            try:
+                obj = api.load_one(path, fmt=fmt)
+            except Exception:  # noqa: BLE001 - some corpus files are damaged on purpose; loading them is C07's business
+                return ev
+        mo = obj.mo
+        if obj.obasis is None or mo is None or mo.coeffs is None or mo.kind == "generalized" or obj.obasis.nbasis > nbmax or np.isnan(mo.coeffs).any():
+            return ev
+        S = ref_overlap(obj.obasis, obj.atcoords)
+        dev = 0.0
+        for C in ([mo.coeffs] if mo.kind == "restricted" else [mo.coeffsa, mo.coeffsb]):
+            G = C.T @ S @ C
+            dev = max(dev, float(np.abs(G - np.eye(G.shape[0])).max()))
+        ev.update(checked=True, dev=dev, orthonormal=bool(dev <= 5e-4))       # the corpus itself deviates by at most 3.5e-5
+        if obj.charge is not None and mo.nelec is not None:
+            ev["nelec_ok"] = bool(abs(float(mo.nelec) - (float(np.sum(obj.atcorenums)) - float(obj.charge))) <= 1e-6)
+        return ev
+    except Exception as exc:  # noqa: BLE001
+        ev.update(checked=True, orthonormal=False, msg="harness:" + type(exc).__name__ + ":" + str(exc)[:120])
+        return ev
+
+
 def shell_sets(fmt, rng, n):
     """Shell lists (center, contractions) within what the target supports (after an allowed conversion)."""
     sup = SUPPORTED[fmt]
@@ -752,10 +784,22 @@ def check(run: Run):
     fevents = pmap(foreign_load, foreign, chunksize=1)
     events = events + fevents
     run.notes["foreign_files_loaded"] = len(fevents)
+    ctasks = [(p, f, run.pick(60, 130)) for p, f, _ in corpus() if f in ("fchk", "molden", "molekel", "wfn", "wfx", "mwfn", "cp2klog")
+              and os.path.getsize(p) < run.pick(150000, 600000)]
+    cevents = pmap(corpus_invariant, ctasks, chunksize=1)
+    events = events + cevents
+    run.notes["corpus_wavefunctions_checked"] = sum(1 for e in cevents if e["checked"])
+    run.notes["corpus_worst_orthonormality_deviation"] = max([e["dev"] for e in cevents] or [0.0])
     reached = validate_traces(run, "Trace_Wavefunction", [[e] for e in events], chunk=3000)
     outs = {}
     for e, r in zip(events, reached):
         run.count()
+        if e["op"] == "CorpusInvariant":
+            run.distinct("corpusinv:" + e["file"])
+            if r != 1:
+                run.violation(f"{e['fmt']} corpus file: loaded orbitals orthonormal={e['orthonormal']} electron-count-consistent={e['nelec_ok']} ({e['file']})",
+                              json.dumps(e), {"event": e})
+            continue
         if e["op"] == "ForeignLoad":
             run.distinct("foreign:" + e["file"])
             if r != 1:
